@@ -72,6 +72,41 @@ def _classes():
     return Rec, Ep
 
 
+def _falsy_classes():
+    """Recording devices whose truth value is False: a collector that reports how many packets it *holds* through
+    `__len__` (it keeps none), or one that defines `__bool__`.  Perfectly legal devices; "the flow's registered end
+    device if there is one", "output f", "every attached endpoint" speak of registration, not of truthiness."""
+    Rec, Ep = _classes()
+
+    class EmptyRec(Rec):
+        def __len__(self):
+            return 0
+
+    class NoRec(Rec):
+        def __bool__(self):
+            return False
+
+    class EmptyEp(Ep):
+        def __len__(self):
+            return 0
+
+    class NoEp(Ep):
+        def __bool__(self):
+            return False
+
+    return {'rec': [EmptyRec, NoRec], 'ep': [EmptyEp, NoEp]}
+
+
+def pick_falsy(rng, c, candidates):
+    """mark some of the device ids `candidates` of dispatch case `c` as falsy objects (`c['falsy']`).  Only positions where
+    the property gives a rule AND the unchanged code makes no truth test are candidates: the end devices of a FIBDemux /
+    FairPacketSwitch, the entries of an output list, hub endpoints.  Default outputs, hub port devices and splitter outputs are
+    never made falsy: the code reads `if self.default_out:` / `if port:` / `if self.out1:` there, and the statement ("else to the
+    default output, else nowhere") leaves open whether an output that is set but falsy counts as present - the oracle stands down."""
+    cand = sorted(set(candidates))
+    c['falsy'] = sorted(d for d in cand if rng.random() < 0.6) if (cand and rng.random() < 0.35) else []
+
+
 def N(x):
     return 'N' if x is None else str(x)
 
@@ -115,6 +150,7 @@ def gen_dispatch(rng, i):
         c['outs'] = [100 + rng.randrange(pool) for _ in range(n)]
         c['default'] = rng.choice([None, 200, 100]) if rng.random() < 0.7 else None
         c['pkts'] = [[p, gen_flow(rng, list(range(n)), n, malformed), 0] for p in range(npk)]
+        pick_falsy(rng, c, [d for d in c['outs'] if d != c['default']])
         if rng.random() < 0.4:
             # history: the same object first served packets with fewer outputs, then `outs` grew in place
             c['warm'] = {'nouts': rng.randint(0, n), 'flows': [x[1] for x in c['pkts']] + [rng.randint(0, n + 1)]}
@@ -149,6 +185,7 @@ def gen_dispatch(rng, i):
         c['default'] = 200 if rng.random() < 0.5 else None
         known = [f for f, _ in c['ends']] + [f for f, _ in (c['fib'] or [])]
         c['pkts'] = [[p, gen_flow(rng, known, 12, malformed), 0] for p in range(npk)]
+        pick_falsy(rng, c, [d for _, d in c['ends']] + [d for d in (c['outs'] or []) if d != c['default']])
         if c['fib'] is not None and rng.random() < 0.5:
             # history: the same object first served packets of the same flows under an earlier configuration (fewer routes,
             # fewer outputs, other end devices), then was reconfigured - through the `fib` setter or by updating the very
@@ -176,6 +213,7 @@ def gen_dispatch(rng, i):
         c['ends'] = [[f, 300 + j] for j, f in enumerate(rng.sample(range(0, 10), rng.randint(0, 2)))] if rng.random() < 0.5 else []
         known = [f for f, _ in c['ends']] + [f for f, _ in (c['fib'] or [])]
         c['pkts'] = [[p, gen_flow(rng, known, 10, False), 0] for p in range(npk)]
+        pick_falsy(rng, c, [d for _, d in c['ends']])
     elif kind == 'hub':
         n = rng.choice([0, 1, 2, 3, 4, 6])
         idpool = n + 2 if rng.random() < 0.6 else max(1, n // 2)      # small pool: endpoints share element ids
@@ -195,6 +233,7 @@ def gen_dispatch(rng, i):
         c['adds'] = [[rng.randrange(idpool + 2), 30 + j, rng.choice([None, 70 + j])] for j in range(rng.choice([0, 0, 1, 2]))]
         alle = [e for e, _ in c['eps']] + [a[0] for a in c['adds']]
         c['pkts'] = [[p, 0, rng.choice(alle) if (alle and rng.random() < 0.8) else 99] for p in range(npk)]
+        pick_falsy(rng, c, [d for _, d in c['eps']] + [a[1] for a in c['adds']])
     elif kind == 'splitter':
         c['out1'] = rng.choice([None, 1, 1, 1])
         c['out2'] = rng.choice([None, 2, 2, 1])
@@ -255,6 +294,9 @@ def case_text(c, cid):
 
 class Failures(list):
     def add(self, what, signature, case, trace):
+        if isinstance(case, dict) and case.get('rival') and case.get('kind') in ('fattree', 'sim'):
+            what += (f' [a second FatTree({case["k"]}) object of the same process generated its own flows (seed {case["rival"]["rseed"]}) and forwarding '
+                     f'tables after this tree\'s generate_fib and before its tables were read]')
         self.append({'what': what, 'signature': signature, 'case': case, 'trace': trace})
 
 
@@ -369,13 +411,22 @@ def run_dispatch(c, fails, hist):
     k = c['kind']
     log = []
     devs = {}
+    falsy = set(c.get('falsy') or [])
+    if falsy:
+        fc = _falsy_classes()
+        hist[k + ':with-falsy-devices'] += 1
 
     def dev(d):
         if d is None:
             return None
         if d not in devs:
-            devs[d] = Rec(d, log)
+            devs[d] = (fc['rec'][d % 2] if d in falsy else Rec)(d, log)
         return devs[d]
+
+    fnote = f' [devices {sorted(falsy)} are objects whose truth value is False: registered / attached is not the same as truthy]' if falsy else ''
+
+    def mk_ep(eid, d):
+        return (fc['ep'][d % 2] if d in falsy else Ep)(eid, d, log)
 
     lines = []
     pkts = [mk_packet(*p) for p in c['pkts']]
@@ -422,7 +473,7 @@ def run_dispatch(c, fails, hist):
             hist['flowdemux:' + ('out' if f < len(c['outs']) else 'default' if c['default'] is not None else 'nowhere')] += 1
             got = [dv for dv, _ in entries]
             if exc or got != exp or any(o is not p for _, o in entries):
-                fails.add(f'FlowDemux: packet of flow {f} went to {got}{" raising " + exc if exc else ""}, the rule says {exp}',
+                fails.add(f'FlowDemux: packet of flow {f} went to {got}{" raising " + exc if exc else ""}, the rule says {exp}' + fnote,
                           'flowdemux-rule', c, lines[-6:])
         put_all(d, chk)
     elif k == 'fibdemux':
@@ -466,7 +517,7 @@ def run_dispatch(c, fails, hist):
             hist['fibdemux:' + ('end' if p.flow_id in dict(map(tuple, c['ends'])) else 'table' if p.flow_id in dict(map(tuple, c['fib']))
                                 else 'default' if exp else 'nowhere') + (':emptytable' if c['fib'] == [] else '')] += 1
             if exc or got != exp or any(o is not p for _, o in entries):
-                fails.add(f'FIBDemux(fib={fib}): packet of flow {p.flow_id} went to {got}{" raising " + exc if exc else ""}, the rule says {exp}',
+                fails.add(f'FIBDemux(fib={fib}): packet of flow {p.flow_id} went to {got}{" raising " + exc if exc else ""}, the rule says {exp}' + fnote,
                           'fibdemux-rule' + (':empty-table' if c['fib'] == [] else ''), c, lines[-6:])
         put_all(d, chk)
     elif k in ('simple', 'fair'):
@@ -523,7 +574,7 @@ def run_dispatch(c, fails, hist):
             got = [dv for dv, _ in entries]
             if exc or got != exp:
                 fails.add(f'{k} switch ({c.get("server", "FIFO")}): packet of flow {f} reached outputs {got}{" raising " + exc if exc else ""}, '
-                          f'the rule says {exp}', 'switch-rule', c, lines[-6:])
+                          f'the rule says {exp}' + fnote, 'switch-rule', c, lines[-6:])
         stray = [(dv, o.packet_id) for dv, o in log if not any(o is p for p in pkts)]
         if stray:
             fails.add(f'switch emitted objects that were never put: {stray}', 'switch-stray', c, lines[-6:])
@@ -534,7 +585,7 @@ def run_dispatch(c, fails, hist):
         decoy = Hub(env)
         for j in range(2):
             decoy.add_endpoint(Ep(f'decoy{j}', 900 + j, log), None)
-        eps = [Ep(f'ep{e}', d, log) for e, d in c['eps']]
+        eps = [mk_ep(f'ep{e}', d) for e, d in c['eps']]
         ports = [None if x is None else dev(x) for x in c['ports']]
         try:
             if not c['eps'] and not c['ports_arg']:
@@ -554,7 +605,7 @@ def run_dispatch(c, fails, hist):
             return lines
         allp = [(eps[j], ports[j] if ports else None) for j in range(len(eps))]
         for e, d, x in c['adds']:
-            ep = Ep(f'ep{e}', d, log)
+            ep = mk_ep(f'ep{e}', d)
             hub.add_endpoint(ep, dev(x))
             allp.append((ep, dev(x)))
         hist['hub:' + ('noports' if not c['ports'] else 'ports')] += 1
@@ -573,7 +624,7 @@ def run_dispatch(c, fails, hist):
             got = collections.Counter(dv for dv, _ in entries)
             if exc or got != exp:
                 fails.add(f'Hub: packet from {p.src} was repeated to {sorted(got.elements())}{" raising " + exc if exc else ""}, '
-                          f'every endpoint but the sender is {sorted(exp.elements())}', 'hub-rule' + ('' if c['ports'] else ':no-ports'),
+                          f'every endpoint but the sender is {sorted(exp.elements())}' + fnote, 'hub-rule' + ('' if c['ports'] else ':no-ports'),
                           c, lines[-8:])
         put_all(hub, chk)
     elif k in ('splitter', 'nsplitter'):
@@ -702,6 +753,43 @@ def fat_tree(k):
     return _FT[k]
 
 
+_FT2 = {}
+
+
+def rival_fib(c, hist):
+    """A second, independent FatTree of the SAME arity (another experiment of a parameter sweep: other seed, other flows)
+    generates its flows and its forwarding tables - called between `generate_fib` of the tree under test and the reading /
+    walking / wiring of its tables.  The tables of a FatTree are its own: "its generated forwarding tables lead hop by hop
+    from the source to the destination along exactly that path" must still hold for the first tree.  Returns (tree, flows)."""
+    from onl.topo import FatTree
+    rv = c.get('rival')
+    if not rv:
+        return None
+    k = c['k']
+    if k not in _FT2:
+        _FT2[k] = FatTree(k)
+    ft2 = _FT2[k]
+    random.seed(rv['rseed'])
+    flows2 = ft2.generate_flows(rv['nflows'])
+    ft2.generate_fib(flows2, tcp=bool(rv['tcp']))
+    hist['fattree:second-tree-of-the-same-k-generated-its-fib-in-between'] += 1
+    return ft2, flows2
+
+
+def rival_check(c, rival, fails):
+    """... and the second tree's own tables lead along its own flows' paths (they were generated last)"""
+    if not rival:
+        return
+    ft2, flows2 = rival
+    nodes = ft2.topo.nodes
+    for fl in flows2.values():
+        w = table_walk(nodes, fl.fid, fl.src, len(nodes) + 1)
+        if w != list(fl.path):
+            fails.add(f'second FatTree({c["k"]}) of the process, flow {fl.fid}: following flow_to_nexthop from {fl.src} visits {w[:12]}, its path is {fl.path}',
+                      'fattree-walk', c, [str(fl.path)])
+            return
+
+
 def make_flows(c):
     """the flow dict of a fat-tree case: regenerated through the real generate_flows when the case came from it"""
     from onl.flow.flow import Flow
@@ -775,6 +863,7 @@ def run_fattree(c, fails, hist):
         ft.generate_fib(flows, tcp=bool(c['tcp']))
     except Exception as x:      # noqa
         gen_exc = type(x).__name__
+    rival = rival_fib(c, hist) if (not gen_exc and c.get('origin') == 'generate_flows') else None
     if gen_exc:
         lines.append('GEN X ' + gen_exc)
         hist['fattree:gen:' + gen_exc] += 1
@@ -837,6 +926,7 @@ def run_fattree(c, fails, hist):
                         fails.add(f'flow {fl.fid}: ACK-class flow_to_port at node {b} is {port}, which does not lead back to {a}',
                                   'fattree-ack-port', c, [str(p)])
                         break
+        rival_check(c, rival, fails)
     return lines
 
 
@@ -851,6 +941,9 @@ def gen_fattree_cases(rng, ctx):
             for tcp in (0, 1):
                 cases.append({'kind': 'fattree', 'k': k, 'tcp': tcp, 'dump': int(s == 0 and tcp == 0), 'origin': 'generate_flows',
                               'rseed': rseed, 'nflows': nfl, 'flows': []})
+                if k <= 8 and rng.random() < 0.5:
+                    # a second FatTree(k) (other seed, other flow set) generates its FIB between this tree's generate_fib and the walks
+                    cases[-1]['rival'] = {'rseed': rng.randrange(10 ** 9), 'nflows': rng.choice([1, 3, 10, 25]), 'tcp': rng.randint(0, 1)}
     # constructor argument check
     for k in [0, -2, 1, 3, 7, rng.choice([9, 11, 13])]:
         cases.append({'kind': 'fattree', 'k': k, 'tcp': 0, 'dump': 0, 'origin': 'handmade', 'flows': []})
@@ -899,6 +992,7 @@ def run_sim(c, fails, hist):
             gens[fid + 10000] = DistPacketGenerator(env, f'Ack_{fid}', lambda: 0.0011, lambda: 64, finish=c['finish'], flow_id=fid + 10000)
             sinks[fid + 10000] = PacketSink(env)
     ft.generate_fib(flows, tcp=bool(tcp))
+    rival = rival_fib(c, hist)          # another FatTree(k) of the same process computes its tables before this one is wired and simulated
     weights = {cl: 1 + cl % 2 for cl in range(ncls)}
     if server == 'SP':
         # SP keeps its sub-queues and priorities per flow id (flow2class is only used as a label): configure every flow id
@@ -968,6 +1062,7 @@ def run_sim(c, fails, hist):
     hist['sim:packets-arrived-at-own-sink'] += recv
     for n in topo.nodes():
         topo.nodes[n].pop('device', None)
+    rival_check(c, rival, fails)
     c['sim_summary'] = ' '.join(summary)
     return rlines
 
@@ -980,6 +1075,8 @@ def gen_sims(rng, ctx):
         out.append({'kind': 'sim', 'k': k, 'nflows': rng.choice([3, 8, 15]) if k > 2 else 2, 'tcp': j % 2, 'server': SERVERS[(j + 2) % 4],
                     'nclasses': rng.choice([1, 2, 3, 5]), 'rseed': rng.randrange(10 ** 9), 'finish': 0.006, 'flows': [],
                     'origin': 'generate_flows', 'dump': 0})
+        if j % 2 == 0 or rng.random() < 0.5:
+            out[-1]['rival'] = {'rseed': rng.randrange(10 ** 9), 'nflows': rng.choice([2, 6, 12]) if k > 2 else 2, 'tcp': rng.randint(0, 1)}
     return out
 
 
